@@ -372,8 +372,9 @@ int main(int argc, char** argv)
       if(T) { big.push_back(MeshCfg{1, 8, 8, 0, true}); big.push_back(MeshCfg{1, 16, 4, 0, true}); big.push_back(MeshCfg{0, 48, 0, 0, true}); }
       for(auto& m : big) for(auto s : all_strategies) for(std::size_t w : {2u, 4u, 6u, 8u, 11u}) for(int fl = 0; fl < 4; ++fl)
       {
+        if(!T && (w == 6u || w == 11u || (w == 8u && fl != 0))) continue;
         Cfg cf; cf.mesh = m; cf.strat = s; cf.maxw = w; cf.ns = (fl & 1) == 0; cf.nc = (fl & 2) != 0; cf.repeats = 1;
-        cf.pb = (w <= 4) ? 1 : 0; cf.sb = 0; cf.max_exec = T ? 1000000u : 100000u;
+        cf.pb = (w <= 4 && (T || s != Assembly::ThreadingStrategy::colored)) ? 1 : 0; cf.sb = 0; cf.max_exec = T ? 3000000u : 300000u;
         cfgs.push_back(cf);
       }
     }
